@@ -489,5 +489,5 @@ add('C19-closed-session-still-reads-one-packet', 'mw3_19', 1, 'C19',
     change="readloop.go defaultReadLoop: if s.isClosed() { return } moved from after ReadFrom to the top of the loop",
     needs="a caller-owned PacketConn (NewConn3), Close of the session, a NEW session on the same conn, and the first packet after the Close being an out-of-band message",
     also=['C15'],
-    checks={'C19 quick': 'missed', 'C15 quick': 'missed'},
-    notes="Not pursued: the harness gives every session a PacketConn of its own, so no second session ever shares a conn with a closed one's parked read loop. Recorded as a miss.")
+    checks={'C19 quick': "caught: 215 of 400 runs of the new scenario (measured with the developer loop), C19/oob/delivered-to-a-closed-session 'the out-of-band handler of A ran 13 ms after that session had been closed' (scenario oob-successor, added in response; missed before)", 'C15 quick': 'missed (not its statement)'},
+    notes="First evaluation: missed - the harness gave every session a PacketConn of its own, so no session ever shared a conn with a closed one's parked read loop. The new scenario closes a pair on caller-owned conns, creates successors with a new conversation on the same conns and lets out-of-band messages be the first datagrams after the Close.")
